@@ -167,23 +167,26 @@ def _run(ops, flags=True):
                 o = dict(o, changed=(rc.snapshot(db) != before))
             outs.append(o)
         memo = sorted([k[0], k[1], bool(v)] for k, v in db._category_unit_valid.items())
-        cache = sorted(([k[0], k[1], k[2] is not None, q.GetCategory(), q.GetUnit()] if len(k) == 3 and isinstance(k[1], str)
-                        else ["<other key>", repr(k), False, q.GetCategory(), q.GetUnit()]
-                        for k, q in db.quantities_cache.items()), key=_ckey)
+        simple = {k: q for k, q in db.quantities_cache.items()
+                  if len(k) == 3 and isinstance(k[1], str) and (k[0] is None or isinstance(k[0], str))}
+        cache = sorted(([k[0], k[1], k[2] is not None, q.GetCategory(), q.GetUnit()] for k, q in simple.items()), key=_ckey)
+        # keys of derived quantities: tuples of (category, (unit, exponent)) pairs
+        dcache = sorted(([[p[0], p[1][0], int(p[1][1])] if isinstance(p, tuple) and len(p) == 2 else ["<caption>", repr(p), 0]
+                          for p in k] for k in db.quantities_cache if k not in simple), key=repr)
         limits = {k: (ci.min_value, ci.max_value) for k, ci in db.categories_to_quantity_types.items()}
     finally:
         UnitDatabase.PopSingleton()
-    return outs, memo, cache, limits
+    return outs, memo, cache, limits, dcache
 
 
 def impl(c, ctx):
     ops = c["_t"]["ops"]
-    outs, memo, cache, limits = _run(ops)
+    outs, memo, cache, limits, dcache = _run(ops)
     n = ctx.notes.setdefault("steps", {})
     for op, o in zip(ops, outs):
         key = (op["q"] if "q" in op else "Add" + op["k"]) + ("/" + o["err"] if "err" in o else "/ok")
         n[key] = n.get(key, 0) + 1
-    return dict(outs=outs, memo=memo, cache=cache, limits=limits)
+    return dict(outs=outs, memo=memo, cache=cache, limits=limits, dcache=dcache)
 
 
 def agree(c, io, mo, ctx):
@@ -210,6 +213,9 @@ def agree(c, io, mo, ctx):
                   rc.unsym(int(e[4]))] for e in mo["cache"]), key=_ckey)
     if mc != io["cache"]:
         return "quantities_cache after the history: impl=%s model=%s" % (io["cache"][:8], mc[:8])
+    md = sorted(([[rc.unsym(int(c)), rc.unsym(int(u)), int(e)] for c, u, e in k] for k in mo.get("dcache", [])), key=repr)
+    if md != io.get("dcache", []):
+        return "derived keys of quantities_cache after the history: impl=%s model=%s" % (io.get("dcache", [])[:6], md[:6])
     return None
 
 
